@@ -69,7 +69,7 @@ class C05(Check):
         self.stats = {}
 
     def budget(self, tier, escalated):
-        n = 4000 if tier == "quick" else 240000
+        n = 3000 if tier == "quick" else 240000
         return n * (4 if escalated and tier == 'quick' else 1)
 
     def nontrivial(self, sample):
@@ -106,6 +106,12 @@ class C05(Check):
             clh = rng.choice([None, None, None, str(len(raw)), '2'])
             ops = rng.choice([['B'], ['B'], ['B', 'B'], ['B', 'S'], ['S'], ['P2', 'B', 'I'], ['?B', 'B'], ['?B', '?B', 'I'],
                               ['?S', '?B'], ['?B', '?S', '?B']])
+            if rng.random() < .15:      # the application replaces wsgi.input (another chunked body) and reads again
+                e2 = bl.gen_enc(rng, 3, 20)
+                r2 = e2.encode() if rng.random() < .7 else mutate(rng, e2)[0]
+                rp = bl.rop(r2, bl.gen_sched(rng, max(1, len(r2)))[:40])
+                ops = rng.choice([['?B', rp, 'B'], ['B', rp, 'B', 'I'], ['?B', rp, '?B', '?S'], ['?S', 'K', rp, '?B', 'O', '?B']])
+                bl.bump(st, 'wsgi:replace-input')
             mk = '@' if rng.random() < .8 else rng.choice(list(bl.MAPS))
             res = bl.run_wsgi(mk, buf, maxb, clh, te, raw, sched, ops, hook=hook)
             out.append((bl.line_wsgi(mk, buf, maxb, clh, te, raw, sched, ops), bl.ans_wsgi(res),
@@ -155,14 +161,6 @@ class C05(Check):
                 return f'{what}:unit-accepted', f'{what}: _body_read ' + ('accepted it' if r['ok'] else f'raised {r["err"]}')
             if w['status'] != 400:
                 return f'{what}:wsgi-status', f'{what}: WSGI answered {w["status"]}, expected 400'
-        if not r['ok']:
-            # a rejected body stays rejected: a handler that caught the error and asks again must not be
-            # handed whatever is left of the stream as a complete body
-            w2 = bl.run_wsgi('@', buf, None, None, 'chunked', raw, sched, ['?B', '?B', '?S'])
-            toks = w2['outs']
-            if len(toks) != 3 or any(not t.startswith('e:HTTP4') for t in toks):
-                return ('second-access-after-error',
-                        f'{what}: first Request.body access was rejected, later accesses gave {toks[1:]}')
         elif expect[0] == 'ok-or-reject':
             if r['ok'] and r['bytes'] != expect[1]:
                 return f'{what}:wrong-body', f'{what}: accepted with a body other than the payload'
@@ -175,6 +173,32 @@ class C05(Check):
                 return 'garbage:unit-exception', f'{what}: _body_read raised {r["err"]}'
             if w['status'] not in (200, 400, 413):
                 return 'garbage:wsgi-status', f'{what}: WSGI answered {w["status"]}'
+        if not r['ok']:
+            # a rejected body stays rejected: a handler that caught the error and asks again must not be
+            # handed whatever is left of the stream as a complete body
+            w2 = bl.run_wsgi('@', buf, None, None, 'chunked', raw, sched, ['?B', '?B', '?S'])
+            toks = w2['outs']
+            if len(toks) != 3 or any(not t.startswith('e:HTTP4') for t in toks):
+                return ('second-access-after-error',
+                        f'{what}: first Request.body access was rejected, later accesses gave {toks[1:]}')
+            # ... unless the application supplies a new stream: that one is decoded afresh
+            good = bl.Enc([(b'fresh body', b'A', b'')])
+            w3 = bl.run_wsgi('@', buf, None, None, 'chunked', raw, sched, ['?B', bl.rop(good.encode(), [1, 2]), 'B'])
+            if buf >= 3 and (w3['status'] != 200 or w3['info'].get('bodies') != [b'fresh body']):
+                return ('replace:after-rejected-read',
+                        f'{what}: rejected, then request["wsgi.input"] = a legal encoding: status {w3["status"]}, outs {w3["outs"]}')
+        else:
+            # what forms / json are built from is never a silent truncation of what request.body shows:
+            # _get_body_string returns the whole decoded body or is refused (413 over the threshold)
+            w4 = bl.run_wsgi('@', buf, None, None, 'chunked', raw, sched, ['M', 'B'], ctype='application/x-www-form-urlencoded')
+            if w4['status'] == 200:
+                shown = w4['info']['bodies'][0]
+                m = int(w4['outs'][0][2:])
+                if m != len(shown):
+                    return ('form-text-truncated', f'{what}: request.body shows {len(shown)} bytes, the form/JSON text '
+                            f'accessor returned {m} of them without an error')
+            elif w4['status'] != 413:
+                return ('form-text-status', f'{what}: form text accessor on a decodable chunked body answered {w4["status"]}')
         return None
 
     def _oracle(self, case):
